@@ -191,7 +191,7 @@ def rule_register(ctx: Ctx, fname: str, gpt: bool) -> None:
             store_c = [n for x in body_c for n in ast.walk(x) if isinstance(n, ast.Assign) and len(n.targets) == 1 and isinstance(n.targets[0], ast.Subscript)
                        and isinstance(n.value, ast.Tuple) and len(n.value.elts) == 2]
             outs = peval.run_block(body_c, {}, consts, lambda c: norm(c.func) in ('GPTNeoXKFACEigenLayer', 'GPTNeoXLinearModuleHelper'),
-                                   lambda t: True, {id(x) for x in store_c})
+                                   lambda t: None, {id(x) for x in store_c})      # eligibility tests are unknown: both branches
             reg = [o for o in outs if o.marks]
             if want is None:
                 ctx.check(not reg, rid, f, f'{case}: not registered', f'case other',
